@@ -770,7 +770,8 @@ def sandwich(tier="quick", start_id=0):
     casn = [{"op": "cas", "c": 0, "cur": "null", "v": new(), "g": 35}, {"op": "deref_g", "g": 35}, {"op": "drop_g", "g": 35}]
     lfd = [{"op": "load_full", "c": 0, "h": 16}, {"op": "drop_h", "h": 16}]
     for name, a, strat, ka in (("casnull/st/pd/nofast", casn, "nofast", 40), ("casnull/st/pd", casn, "default", 36),
-                               ("lf/st/pd/nofast", lfd, "nofast", 30), ("rcu/st/pd/nofast", rcu, "nofast", 50)):
+                               ("lf/st/pd/nofast", lfd, "nofast", 30), ("rcu/st/pd/nofast", rcu, "nofast", 50), ("rcu/st/pd", rcu, "default", 44),
+                               ("ld/st/pd", ld, "default", 26), ("ld/st/pd/nofast", ld, "nofast", 30)):
         p = prog(warm + a, warm2 + st, strat, reuse="never", pd=True)
         for k1 in range(8, ka):
             jobs.append({"fam": "sandwich:pd:" + name, "prog": p, "sched": {"kind": "segs", "segs": [[1, k1], [2, 9999], [1, 9999]]}})
